@@ -324,6 +324,16 @@ def build(cfg, values=None):
             H = finalize_symmetric_matrix(tot).todict()
             for k in sorted(set(K) | set(H)):
                 obs.append(('tstiff2d-k0-vs-parts[%d,%d]' % (k[0], k[1]), K.get(k, 0), H.get(k, 0)))
+            # geometric stiffness and mass: base block at the stiffener's range, flange block right after it
+            st.base.Nxx, st.flange.Nxx = ctx.V('Nxxb'), ctx.V('Nxxf')
+            for nm in ('kG0', 'kM'):
+                getattr(st, 'calc_' + nm)(size=total, row0=r0, col0=r0, silent=True, finalize=False)
+                Kn = finalize_symmetric_matrix(getattr(st, nm)).todict()
+                tn = getattr(st.base, 'calc_' + nm)(size=total, row0=r0, col0=r0, silent=True, finalize=False)
+                tn = tn + getattr(st.flange, 'calc_' + nm)(size=total, row0=rf, col0=rf, silent=True, finalize=False)
+                Hn = finalize_symmetric_matrix(tn).todict()
+                for k in sorted(set(Kn) | set(Hn)):
+                    obs.append(('tstiff2d-%s-vs-parts[%d,%d]' % (nm, k[0], k[1]), Kn.get(k, 0), Hn.get(k, 0)))
             obs += wiring_obligations(bay, comps)
         elif variant == 'blade2d-parts':
             # BladeStiff2D.calc_k0 against its explicit composition from the stiffener's definition
@@ -350,6 +360,17 @@ def build(cfg, values=None):
             H = finalize_symmetric_matrix(tot).todict()
             for k in sorted(set(K) | set(H)):
                 obs.append(('bladestiff2d-k0-vs-parts[%d,%d]' % (k[0], k[1]), K.get(k, 0), H.get(k, 0)))
+            # geometric stiffness (flange only: the pad-up carries no pre-load in the package) and mass (base at the skin amplitudes)
+            st.flange.Nxx = ctx.V('Nxxf')
+            for nm in ('kG0', 'kM'):
+                getattr(st, 'calc_' + nm)(size=total, row0=r0, col0=r0, silent=True, finalize=False)
+                Kn = finalize_symmetric_matrix(getattr(st, nm)).todict()
+                tn = getattr(st.flange, 'calc_' + nm)(size=total, row0=r0, col0=r0, silent=True, finalize=False)
+                if nm == 'kM' and st.base is not None:
+                    tn = tn + st.base.calc_kM(size=total, row0=0, col0=0, silent=True, finalize=False)
+                Hn = finalize_symmetric_matrix(tn).todict()
+                for k in sorted(set(Kn) | set(Hn)):
+                    obs.append(('bladestiff2d-%s-vs-parts[%d,%d]' % (nm, k[0], k[1]), Kn.get(k, 0), Hn.get(k, 0)))
             obs += wiring_obligations(bay, comps)
         elif variant == 'partition':
             which = cfg['which']
